@@ -12,6 +12,8 @@ pub struct Trk {
     pub delay: u32,
     pub interval: u32,
     pub refid: u32,
+    /// source address of the report as an IPv4 word (None = unspecified, what chronyd sends for refclocks)
+    pub ip4: Option<u32>,
 }
 
 pub fn reply_bytes(t: &Trk, reply_code: u16) -> Vec<u8> {
@@ -25,8 +27,10 @@ pub fn reply_bytes(t: &Trk, reply_code: u16) -> Vec<u8> {
     b.extend_from_slice(&[0; 8]);
     // body
     b.extend_from_slice(&t.refid.to_be_bytes());
-    b.extend_from_slice(&[0; 16]);
-    b.extend_from_slice(&0u16.to_be_bytes()); // family unspec
+    match t.ip4 {
+        None => { b.extend_from_slice(&[0; 16]); b.extend_from_slice(&0u16.to_be_bytes()); } // family unspec
+        Some(a) => { b.extend_from_slice(&a.to_be_bytes()); b.extend_from_slice(&[0; 12]); b.extend_from_slice(&1u16.to_be_bytes()); } // IPADDR_INET4
+    }
     b.extend_from_slice(&0u16.to_be_bytes());
     b.extend_from_slice(&1u16.to_be_bytes()); // stratum
     b.extend_from_slice(&t.leap.to_be_bytes());
@@ -72,7 +76,7 @@ pub fn tracking(t: &Trk) -> Tracking {
 
 /// self-test of the hard-coded layout against chrony-candm's own serialiser
 pub fn self_test() {
-    let t = Trk { leap: 0xABCD, ref_ns: 1_700_000_123_456_789_012, off: 0xee562947, disp: 0x0893362c, delay: 0x026bb816, interval: 0x0b000000, refid: 0x50484330 };
+    let t = Trk { leap: 0xABCD, ref_ns: 1_700_000_123_456_789_012, off: 0xee562947, disp: 0x0893362c, delay: 0x026bb816, interval: 0x0b000000, refid: 0x50484330, ip4: None };
     let tr = tracking(&t);
     assert_eq!(tr.leap_status, 0xABCD);
     assert_eq!(tr.ref_id, 0x50484330);
